@@ -27,21 +27,38 @@ def _leaf(kind: int):
     skip("kind")
 
 
-@obligation(prop="C16", sites=("path",), budget={"quick": 120, "thorough": 300},
+@obligation(prop="C16", sites=("path",), budget={"quick": 200, "thorough": 400},
+            examples=({"ka": 6, "kc": 6, "ke": 0, "kb": 0, "v": 5, "bottom_up": True},
+                      {"ka": 0, "kc": 0, "ke": 0, "kb": 0, "v": 5, "bottom_up": False}),
             encodes=["cincoconfig.support.get_all_fields", "cincoconfig.core.Schema.__getitem__",
                      "cincoconfig.core.Config.__getitem__", "cincoconfig.core.Config.__setitem__",
                      "cincoconfig.core.Config.__contains__", "cincoconfig.core.BaseField._ref_path"],
             what="for every path enumerated on a symbolic schema shape (depth<=3): schema[path] is the field, "
                  "item_ref_path == path, config[path] == chained attribute access, path in config, "
                  "config[path]=v lands there; enumerated set == oracle set")
-def path_agreement(ka: int, kc: int, ke: int, kb: int, v: int) -> bool:
+def path_agreement(ka: int, kc: int, ke: int, kb: int, v: int, bottom_up: bool) -> bool:
     """
     pre: 0 <= ka <= 6 and 0 <= kc <= 6 and 0 <= ke <= 5 and 0 <= kb <= 5
     post: _
     """
     schema = Schema()
     want = []
-    if ka == 6:
+    if ka == 6 and bottom_up:
+        # sub-schemas populated first and mounted afterwards
+        want.append("a")
+        sub = Schema()
+        if kc == 6:
+            inner = Schema()
+            inner.e = _leaf(ke)
+            sub.c = inner
+            want += ["a.c", "a.c.e"]
+        else:
+            sub.c = _leaf(kc)
+            want.append("a.c")
+        sub.d = StringField(default="d")
+        want.append("a.d")
+        schema.a = sub
+    elif ka == 6:
         want.append("a")
         if kc == 6:
             want.append("a.c")
@@ -100,6 +117,7 @@ def _cli_schema():
     schema.debug = BoolField(default=True)
     schema.quiet = BoolField(default=False)
     schema.tags = ListField(IntField(), default=lambda: [1])
+    schema.level_x = IntField(default=4)     # its path is a substring of "sub.level_x"
     schema.sub.flag = BoolField(default=True)
     schema.sub.level_x = IntField(default=3)
     schema.sub.deep.pw = SecureField(default="pw0")
@@ -109,6 +127,7 @@ def _cli_schema():
 ORACLE_OPTS = {
     "port": ["--port"], "name": ["--name"], "rate": ["--rate"],
     "debug": ["--debug", "--no-debug"], "quiet": ["--quiet", "--no-quiet"],
+    "level_x": ["--level-x"],
     "sub.flag": ["--sub-flag", "--no-sub-flag"], "sub.level_x": ["--sub-level-x"],
     "sub.deep.pw": ["--sub-deep-pw"],
 }
@@ -145,6 +164,8 @@ def _override(p_port: int, p_name: bool, p_rate: bool, p_debug: int, p_quiet: in
     argv = []
     want = _deepcopy(before)
     ignore = [d for d, on in (("port", ig_port), ("debug", ig_debug), ("sub.flag", ig_flag)) if on]
+    if ig_as_str and ig_flag:
+        ignore = []   # the bare string "sub.level_x" is the whole ignore list
     if p_port == 1:
         argv += ["--port", "8080"]
         if "port" not in ignore:
@@ -170,14 +191,17 @@ def _override(p_port: int, p_name: bool, p_rate: bool, p_debug: int, p_quiet: in
                 node = node[part]
             node[parts[-1]] = sel == 1
     if p_level:
-        argv += ["--sub-level-x", "7"]
-        want["sub"]["level_x"] = 7
+        argv += ["--sub-level-x", "7", "--level-x", "6"]
+        want["level_x"] = 6
+        if not (ig_as_str and ig_port and ig_flag):
+            want["sub"]["level_x"] = 7
     if p_pw:
         argv += ["--sub-deep-pw", "hunter2"]
         want["sub"]["deep"]["pw"] = "hunter2"
     parser = generate_argparse_parser(schema, prog="t", add_help=False)
     args = parser.parse_args(argv)
-    ign = "port" if ig_as_str else ignore
+    # a bare string names ONE option: "port", or (ig_flag too) "sub.level_x", of which "level_x" is a substring
+    ign = ("sub.level_x" if ig_flag else "port") if ig_as_str else ignore
     try:
         cmdline_args_override(cfg, args, ignore=ign)
     except ValidationError:
@@ -206,11 +230,12 @@ def _make(p_debug: int, p_flag: int):
                      "previous value), from the default state and from a preset state")
     def ob(p_port: int, p_scalars: bool, p_pw: bool, preset: bool, ig: int) -> bool:
         """
-        pre: 0 <= p_port <= 2 and 0 <= ig <= 4
+        pre: 0 <= p_port <= 2 and 0 <= ig <= 5
         post: _
         """
+        # ig: 0 none, 1 ["port"], 2 "port" (bare string), 3 ["debug"], 4 ["sub.flag"], 5 "sub.level_x" (bare string)
         return _override(p_port, p_scalars, p_scalars, p_debug, p_debug, p_flag, p_scalars, p_pw, preset,
-                         ig in (1, 2), ig == 3, ig == 4, ig == 2)
+                         ig in (1, 2, 5), ig == 3, ig in (4, 5), ig in (2, 5))
 
 
 for _d in (0, 1, 2):
